@@ -10,7 +10,11 @@ CONSTANTS N,            \* number of request tasks
           DriverSteps,  \* steps of thread 0 that are scheduled explicitly (one poll = 1 + 3 * Rounds steps)
           StreamSteps   \* steps of a request task: start, store, wake, finish = 4
 
-Kinds == <<"settings", "truncated", "qpack">>
+\* how each request task comes to raise a connection error: a protocol violation it detects itself (unexpected frame,
+\* truncated frame, undecodable section) or a connection-level error the QUIC layer reports to this task only
+KindSets == CASE N = 1 -> { <<"settings">>, <<"quic_internal">>, <<"quic_timeout">> }
+              [] N = 2 -> { <<"settings", "truncated">>, <<"quic_internal", "settings">>, <<"truncated", "quic_timeout">> }
+              [] OTHER -> { <<"settings", "truncated", "qpack">>, <<"quic_internal", "settings", "quic_timeout">> }
 VARIABLES sched, left, done
 Init == sched = <<>> /\ left = [t \in 0..N |-> IF t = 0 THEN DriverSteps ELSE StreamSteps] /\ done = FALSE
 Step == /\ ~done /\ \E t \in 0..N : left[t] > 0 /\ sched' = Append(sched, t) /\ left' = [left EXCEPT ![t] = @ - 1] /\ UNCHANGED done
@@ -18,6 +22,6 @@ Step == /\ ~done /\ \E t \in 0..N : left[t] > 0 /\ sched' = Append(sched, t) /\ 
 Finish == /\ ~done /\ (\A t \in 1..N : left[t] = 0) /\ done' = TRUE /\ UNCHANGED <<sched, left>>
 Next == Step \/ Finish
 Spec == Init /\ [][Next]_<<sched, left, done>>
-Emit == ~done \/ (\A d \in {"none", "missing_settings", "remote_close"} :
-                    PrintT(<<"SCN", ToJson([streams |-> [i \in 1..N |-> Kinds[i]], driver |-> d, schedule |-> sched])>>))
+Emit == ~done \/ (\A d \in {"none", "missing_settings", "remote_close"}, ks \in KindSets :
+                    PrintT(<<"SCN", ToJson([streams |-> ks, driver |-> d, schedule |-> sched])>>))
 =============================================================================
